@@ -305,6 +305,12 @@ impl Database {
         db.ensure_catalog()?;
         db.ensure_system_tables()?;
 
+        // In degraded mode the table files are still missing the pending WAL
+        // frames and writes are refused; PRAGMA recover_wal does this instead.
+        if db.is_read_write() {
+            db.restore_next_row_id()?;
+        }
+
         let recovery_info = RecoveryInfo {
             frames_recovered,
             wal_size_bytes: estimate.wal_size_bytes,
@@ -548,6 +554,69 @@ impl Database {
                 }
             }
         }
+    }
+
+    /// Raises the global row-id counter above every row key already stored.
+    ///
+    /// Row keys are the big-endian row id (`generate_row_key`) and the counter is
+    /// not persisted, so it is rebuilt from the data itself: the largest key of
+    /// every table's B-tree is read (one descent per table, no scan) and the
+    /// counter is set to the maximum + 1. Must run on table files that are up to
+    /// date, i.e. after WAL recovery.
+    pub(crate) fn restore_next_row_id(&self) -> Result<()> {
+        use crate::btree::BTreeReader;
+
+        self.ensure_catalog()?;
+        self.ensure_file_manager()?;
+
+        let tables: Vec<(String, String)> = {
+            let catalog_guard = self.shared.catalog.read();
+            let catalog = catalog_guard.as_ref().unwrap();
+            catalog
+                .schemas()
+                .iter()
+                .flat_map(|(schema_name, schema)| {
+                    schema
+                        .tables()
+                        .keys()
+                        .map(move |table_name| (schema_name.clone(), table_name.clone()))
+                })
+                .collect()
+        };
+
+        let mut max_row_id = 0u64;
+        {
+            let mut file_manager_guard = self.shared.file_manager.write();
+            let file_manager = file_manager_guard.as_mut().unwrap();
+
+            for (schema_name, table_name) in &tables {
+                if !file_manager.table_exists(schema_name, table_name) {
+                    continue;
+                }
+                let storage_arc = file_manager.table_data(schema_name, table_name)?;
+                let storage = storage_arc.read();
+                let root_page = TableFileHeader::from_bytes(storage.page(0)?)?.root_page();
+                if root_page == 0 || root_page >= storage.page_count() {
+                    continue;
+                }
+                let last_key = BTreeReader::new(&storage, root_page)?
+                    .last_key()
+                    .wrap_err_with(|| {
+                        format!(
+                            "failed to read the last row key of table '{}.{}'",
+                            schema_name, table_name
+                        )
+                    })?;
+                if let Some(Ok(bytes)) = last_key.map(<[u8; 8]>::try_from) {
+                    max_row_id = max_row_id.max(u64::from_be_bytes(bytes));
+                }
+            }
+        }
+
+        self.shared
+            .next_row_id
+            .fetch_max(max_row_id.saturating_add(1), AtomicOrdering::AcqRel);
+        Ok(())
     }
 
     pub fn ensure_wal(&self) -> Result<()> {
